@@ -1,6 +1,6 @@
 /-
   Merge: model of /repo/tax/totals.go as the code is NOW (after fixes 3aecd1a,
-  51a93ed, 60732be):
+  51a93ed, 60732be, 1b8dc7e):
 
     Total.Clone, Total.Merge, Total.Negate, RateTotal.Matches, RateTotal.clone,
     Extensions.Equals, and Total.Calculate (calculateFinalSum,
@@ -15,9 +15,10 @@
 
   A functional model has no pointers: `Clone` is the identity and "operands are
   not altered" is trivial here — the aliasing half of the property is checked on
-  the real code by the harness.  The one run-time panic of `Merge` (matched
-  exempt rows, surcharge only in the second operand) is modelled by the separate
-  predicate `mergePanics`.  Core Lean only.
+  the real code by the harness.  `Merge` has no partial step left: since fix
+  1b8dc7e a matched row without surcharge receives a copy of the second
+  operand's (only exempt rows can match with a surcharge on one side only), so
+  `Total.merge` is the result for every pair of summaries.  Core Lean only.
 -/
 import GoblVerif.Model.Num
 
@@ -80,7 +81,9 @@ def RateTotal.matches (rt rt2 : RateTotal) : Bool :=
 
 /-! ### Merge -/
 
-/-- the "Merge the amounts" block for a matched rate -/
+/-- the "Merge the amounts" block for a matched rate: base and amount are added;
+    the second row's surcharge amount is added to the matched row's, or — when the
+    matched row has none — copied (percentage and amount) -/
 def RateTotal.absorb (m rt : RateTotal) : RateTotal :=
   { m with
     base := m.base.add rt.base
@@ -91,24 +94,14 @@ def RateTotal.absorb (m rt : RateTotal) : RateTotal :=
       | some s2 =>
         match m.surcharge with
         | some s => some { s with amount := s.amount.add s2.amount }
-        | none => none }  -- Go dereferences a nil pointer here: see `absorbPanics`
-
-def RateTotal.absorbPanics (m rt : RateTotal) : Bool := rt.surcharge.isSome && m.surcharge.isNone
+        | none => some { percent := s2.percent, amount := s2.amount } }
 
 /-- find the first matching rate and absorb, else append a clone -/
 def mergeRate : List RateTotal → RateTotal → List RateTotal
   | [], rt => [rt]
   | m :: rest, rt => if m.matches rt then m.absorb rt :: rest else m :: mergeRate rest rt
 
-def mergeRatePanics : List RateTotal → RateTotal → Bool
-  | [], _ => false
-  | m :: rest, rt => if m.matches rt then m.absorbPanics rt else mergeRatePanics rest rt
-
 def mergeRates (rs rts : List RateTotal) : List RateTotal := rts.foldl mergeRate rs
-
-def mergeRatesPanics : List RateTotal → List RateTotal → Bool
-  | _, [] => false
-  | rs, rt :: more => mergeRatePanics rs rt || mergeRatesPanics (mergeRate rs rt) more
 
 /-- the `else` branch of `Merge` for an existing category -/
 def CategoryTotal.absorb (m ct : CategoryTotal) : CategoryTotal :=
@@ -126,27 +119,16 @@ def mergeCategory : List CategoryTotal → CategoryTotal → List CategoryTotal
   | [], ct => [ct]
   | m :: rest, ct => if m.code == ct.code then m.absorb ct :: rest else m :: mergeCategory rest ct
 
-def mergeCategoryPanics : List CategoryTotal → CategoryTotal → Bool
-  | [], _ => false
-  | m :: rest, ct => if m.code == ct.code then mergeRatesPanics m.rates ct.rates else mergeCategoryPanics rest ct
-
 def mergeCategories (cs cts : List CategoryTotal) : List CategoryTotal := cts.foldl mergeCategory cs
-
-def mergeCategoriesPanics : List CategoryTotal → List CategoryTotal → Bool
-  | _, [] => false
-  | cs, ct :: more => mergeCategoryPanics cs ct || mergeCategoriesPanics (mergeCategory cs ct) more
 
 /-- `Total.Clone` -/
 def Total.clone (t : Total) : Total := t
 
-/-- `Total.Merge` (result when the Go code does not panic) -/
+/-- `Total.Merge` -/
 def Total.merge (t t2 : Total) : Total :=
   { categories := mergeCategories t.clone.categories t2.categories
     sum := t.sum.add t2.sum
     sumP := t.sumP.add t2.sumP }
-
-/-- does `t.Merge(t2)` panic in Go (nil `Surcharge` of a matched exempt row) -/
-def Total.mergePanics (t t2 : Total) : Bool := mergeCategoriesPanics t.categories t2.categories
 
 /-! ### Negate -/
 
